@@ -10,25 +10,8 @@ LEVEL_NOTE_COMMON = ("Trusted: Coq 8.16.1 kernel (full .vo build, no native_comp
                      "(no Extract Constant), the OCaml line-parsing driver, the in-crate Rust harness (cargo feature verif) and "
                      "python generators. Axioms per theorem are read from Print Assumptions on every run and written to the evidence. ")
 
-CLAIMED = {
-    "C16": dict(
-        technique="Coq proof (invariant + FIFO refinement by induction over op lists) of a hand-written Gallina model; model tied to the code by differential correspondence on the real BundleFactory via the extracted model",
-        text="Theorems over all op sequences and sizes (exactly-once FIFO refinement, size bound, exact refusal rule, capacity bound) about a Gallina model of BundleFactory; the model is run (extracted) against the real BundleFactory on seeded push/pop scripts with real prost-encoded actions and the theorem conclusions are also monitored directly on the implementation's outputs.",
-        note="Modelled, not verified: prost encoded_len (an input of the model, read from the real action); the executor select! loop that calls these three operations. Hypothesis 2*max <= usize::MAX.",
-        design="4/C16"),
-}
-
-CLAIMED["C08"] = dict(
-    technique="Coq proofs (soundness by induction over the audit path modulo an explicit hash collision; totality by a trailing-ones measure on the 64-bit index arithmetic; RFC 6962 root/path equality by a checked sweep lifted through a hash-homomorphism lemma) of a Gallina model of astria-merkle; tied to the crate by differential correspondence with real SHA-256",
-    text="Theorems for all proofs/leaves/roots: verification accepts only the leaf, path elements and root it was built for (else an explicit SHA-256 collision), and verifying any decodable (path,index,size) triple never panics; root = RFC 6962 MTH and constructed proof = RFC audit path (bound stated in the theorem). The model (64-bit index arithmetic with explicit panics) is extracted and run against the real crate on exhaustive small trees, random trees up to 2^16 leaves and structured proof mutations; an independent RFC 6962 recursion monitors the implementation directly.",
-    note="Modelled, not verified: SHA-256 (abstract nodeH; the driver instantiates it with a SHA-256 that is cross-checked against every digest the crate prints), leaf hashing and 32-byte chunking of the audit path.",
-    design="4/C08")
-
-CLAIMED["C09"] = dict(
-    technique="Coq proofs (exact 2/3 threshold arithmetic; tally invariant with duplicate detection by induction over the signature list; metadata acceptance; reconstruction bound) of a Gallina model of conductor's firm-block verification, with the threshold kernel regenerated from the Rust source on every run; tied to the code by differential correspondence through real ed25519 commits, a mock CometBFT RPC and real Celestia blob encoding",
-    text="Theorems for all validator sets, power distributions and signature lists: a commit is accepted only if distinct validators with valid signatures hold strictly more than 2/3 of the total power (threshold function regenerated from block_verifier.rs and proved equal to the model's); metadata is kept only with the commit's block hash and chain id; rollup data is attached only to a verified header with the same hash whose Merkle audit succeeds. The extracted model runs against ensure_commit_has_quorum and the real decode -> verify_metadata -> reconstruct pipeline on generated commits (boundary powers, duplicated/forged/empty/nil/unknown signatures) and single tamperings of blobs; the acceptance condition is also monitored directly on the implementation's output.",
-    note="Modelled, not verified: ed25519 (Valid/Invalid/Missing per entry), protobuf/brotli well-formedness and the Merkle audit verdict of blob entries (inputs of the pipeline model; the audit itself is C08), RPC transport/rate limit/moka cache. Three genuine defects of the pinned tree were found and fixed (known_findings.json F2-F4).",
-    design="4/C09")
+CLAIMED = json.load(open(os.path.join(V, "tools", "claims.json")))
+# only properties whose check is merged and passing in /verif are listed in tools/claims.json
 
 NOT_YET = "check under construction in this round; nothing is claimed for it yet (see DESIGN.md section 4 for the plan)"
 
